@@ -5,4 +5,5 @@ set -e
 cd /verif/checker
 mkdir -p /verif/bin /verif/out /verif/evidence
 go build -o /verif/bin/drandcheck .
+/verif/bin/drandcheck selftest
 echo "built /verif/bin/drandcheck"
